@@ -14,7 +14,7 @@ def findCmd (args : List String) : String :=
   | [ws, name, al, ng, x, refs, known] =>
     match parseOp name al ng x, parseRanges refs, parseRanges known with
     | some op, some refs, some known =>
-      match find op ⟨refs, false⟩ known (parseWs ws) with
+      match search op ⟨refs, false⟩ known (parseWs ws) with
       | .ok l => showRanges l
       | .err _ => "err"
       | .panic m => s!"panic:{m}"
